@@ -57,4 +57,12 @@ theorem lockset_sound (tr : Trace) (wf : WFLock tr) (i j : Nat) (ei ej : Ev) (x 
     (hi : holdsAt tr ei.tid l wi i) (hjh : holdsAt tr ej.tid l wj j) : HB tr i j :=
   Lockset.lockset_sound tr wf i j ei ej x hij hj hei hej hne hai haj l wi wj hw hi hjh
 
+
+/-- T2 structure fact shared with C19 and C05: the request-id generator, which every goroutine that issues a request or a heartbeat calls
+on the connection's context, is ONE atomic read-modify-write on a variable nobody else touches — no plain load or store, no second
+statement (a wrap-around special case written as a plain assignment would race with the other callers' atomic adds) -/
+theorem id_generator_atomic :
+    Gen.stmts_GetRequestIDGen = ["var id uint32", "return func() uint32 { return atomic.AddUint32(&id, 1) }"] := by
+  decide
+
 end OAP.C17
